@@ -94,6 +94,10 @@ def tags(prog):
                 for it in s["items"]:
                     if it["e"].get("t") == "col" and it["n"] and it["n"] != it["e"]["name"]:
                         t.add("alias-derive")
+            if op == "select":
+                for it in s["items"]:
+                    if it["e"].get("t") == "col" and it["n"] and it["n"] != it["e"]["name"]:
+                        t.add("alias-select")
             if op == "aggregate":
                 for it in s["items"]:
                     if it["e"].get("t") != "agg":
